@@ -388,6 +388,11 @@ def main(ck: Check):
                 specs.append(BonusSpec(bonus_type=bt, grade=rng.randint(lo, 7)))
             else:
                 specs.append(BonusSpec(bonus_type=bt, rank=rng.randint(1, 8 - lo)))
+        if specs and rng.random() < 0.35:
+            # the same kind listed twice with another grade (legal: BonusSpec lists are not deduplicated)
+            again = rng.choice(specs)
+            g = rng.choice([x for x in range(lo, 8) if x != again.get_grade()])
+            specs.insert(rng.randint(0, len(specs)), BonusSpec(bonus_type=again.bonus_type, grade=g))
         return specs
 
     for i in range(n_bp):
